@@ -315,7 +315,9 @@ impl ParsedPacket {
             debug_assert!(!self.maybe_compressed);
         }
         let rr_len = rr.packet.len();
-        if DNS_MAX_UNCOMPRESSED_SIZE - self.packet().len() < rr_len {
+        if self.packet().len() > DNS_MAX_UNCOMPRESSED_SIZE
+            || DNS_MAX_UNCOMPRESSED_SIZE - self.packet().len() < rr_len
+        {
             bail!(DSError::PacketTooLarge)
         }
         self.rrcount_inc(section)?;
